@@ -19,7 +19,7 @@ CLAIMED = {
          "Held-on-N-histories exploration; three genuine defects (revocation secret stored before refusal, allowlist partially applied, channel entry rewritten by the refused combined validate request) were repaired by fix: commits.",
          "Storage backend failures not generated; API-level requests with the handler's persist envelope; the wire group covers the channel handler's commitment requests on the in-memory store only.",
          "C10"),
- "C11": ("stateful property-based testing with crash injection after every request: a twin signer is restored from a copy of the store alone and compared field by field with the running signer on the items the property lists; memory store, cloud-staged store, and vls-persist's BackupPersister (twin restored from the backup store alone); one channel carries a permanent id",
+ "C11": ("stateful property-based testing with crash injection after every request: a twin signer is restored from a copy of the store alone and compared field by field with the running signer on the items the property lists; memory store, cloud-staged store, vls-persist's BackupPersister (twin restored from the backup store alone), and the redb store vlsd uses by default (database on tmpfs; one twin from a byte copy of the database directory opened afresh, one from the listed entries); one channel carries a permanent id",
          "Held-on-N-histories exploration (about 50k restores per quick run); the genuine defect found (forget flag not durable) was repaired by a fix: commit.",
          "Twin restored through the in-memory KVV store (redb reopen: C16); cloud store twin is restored from the committed local store.",
          "C11"),
